@@ -48,7 +48,9 @@ type vfE7Chan struct {
 	Depth, Backend, InFlight, Deferred, Requeue, Timeout, Msg       int64
 	Zone, Region, Global, ClientCount                               int64
 	Paused                                                          bool
-	E2E                                                             int // 0 absent, 1 present, 2 null, 3 present with percentiles
+	E2E                                                             int // 0 absent, 1 present, 2 null, 3 present with percentiles, 4 present with the percentiles of Pct
+	UpNodes                                                         []int // a "nodes" member in the channel object the stub sends: -1 null, 1 an object
+	Pct                                                             []int // E2E == 4: one entry per element of "percentiles": -1 null, 0 an object without "quantile", k>0 {"quantile": k/100}
 	Clients                                                         []vfE7Client
 }
 
@@ -58,6 +60,7 @@ type vfE7Topic struct {
 	Depth, Backend, Msg, Zone, Region, Global int64
 	Paused                                     bool
 	E2E                                        int
+	Pct                                        []int
 	Channels                                   []vfE7Chan
 }
 
@@ -171,7 +174,7 @@ func (c vfE7Chan) tokens(sb *strings.Builder) {
 		return
 	}
 	fmt.Fprintf(sb, " C %s %d %d %d %d %d %d %d %d %d %d %d %s %s %d", vfE7S(c.Name), c.Depth, c.Backend, c.InFlight, c.Deferred,
-		c.Requeue, c.Timeout, c.Msg, c.Zone, c.Region, c.Global, c.ClientCount, vfE7B(c.Paused), vfE7B(c.E2E == 1 || c.E2E == 3), len(c.Clients))
+		c.Requeue, c.Timeout, c.Msg, c.Zone, c.Region, c.Global, c.ClientCount, vfE7B(c.Paused), vfE7E2ETok(c.E2E, c.Pct)+vfE7JunkTok(c.UpNodes), len(c.Clients))
 	for _, k := range c.Clients {
 		if k.Null {
 			sb.WriteString(" null")
@@ -187,7 +190,7 @@ func (t vfE7Topic) tokens(sb *strings.Builder) {
 		return
 	}
 	fmt.Fprintf(sb, " T %s %d %d %d %d %d %d %s %s %d", vfE7S(t.Name), t.Depth, t.Backend, t.Msg, t.Zone, t.Region, t.Global,
-		vfE7B(t.Paused), vfE7B(t.E2E == 1 || t.E2E == 3), len(t.Channels))
+		vfE7B(t.Paused), vfE7E2ETok(t.E2E, t.Pct), len(t.Channels))
 	for _, c := range t.Channels {
 		c.tokens(sb)
 	}
@@ -273,8 +276,96 @@ func (w vfE7VWorld) tokens() string {
 
 func vfE7J(s string) string { b, _ := json.Marshal(s); return string(b) }
 
-func vfE7E2E(mode int, sb *strings.Builder) {
+// vfE7E2ETok: "0" absent/null, "1" present (well-formed percentiles), "p:<e>,<e>,…" present with the given shape
+// (e = n for null, else the quantile id); old op lines only have 0/1.
+func vfE7E2ETok(mode int, pct []int) string {
+	if mode != 4 {
+		return vfE7B(mode == 1 || mode == 3)
+	}
+	var es []string
+	for _, k := range pct {
+		if k < 0 {
+			es = append(es, "n")
+		} else {
+			es = append(es, strconv.Itoa(k))
+		}
+	}
+	return "p:" + strings.Join(es, ",")
+}
+
+// vfE7JunkTok: suffix of the channel's latency token: "/j:<e>,<e>" = the channel object carries "nodes":[…] (n null, o object).
+func vfE7JunkTok(up []int) string {
+	if len(up) == 0 {
+		return ""
+	}
+	var es []string
+	for _, k := range up {
+		if k < 0 {
+			es = append(es, "n")
+		} else {
+			es = append(es, "o")
+		}
+	}
+	return "/j:" + strings.Join(es, ",")
+}
+
+func vfE7ParseJunkTok(tok string) (string, []int) {
+	i := strings.Index(tok, "/j:")
+	if i < 0 {
+		return tok, nil
+	}
+	var up []int
+	for _, e := range strings.Split(tok[i+3:], ",") {
+		if e == "n" {
+			up = append(up, -1)
+		} else if e != "" {
+			up = append(up, 1)
+		}
+	}
+	return tok[:i], up
+}
+
+func vfE7ParseE2ETok(tok string) (int, []int) {
+	if !strings.HasPrefix(tok, "p:") {
+		if tok == "1" {
+			return 1, nil
+		}
+		return 0, nil
+	}
+	var pct []int
+	for _, e := range strings.Split(tok[2:], ",") {
+		if e == "" {
+			continue
+		}
+		if e == "n" {
+			pct = append(pct, -1)
+		} else {
+			k, _ := strconv.Atoi(e)
+			pct = append(pct, k)
+		}
+	}
+	return 4, pct
+}
+
+func vfE7PctJSON(pct []int) string {
+	var es []string
+	for i, k := range pct {
+		switch {
+		case k < 0:
+			es = append(es, "null")
+		case k == 0:
+			es = append(es, fmt.Sprintf(`{"value":%d}`, 1000*(i+1)))
+		default:
+			es = append(es, fmt.Sprintf(`{"quantile":%g,"value":%d}`, float64(k)/100, 1000*(i+1)))
+		}
+	}
+	return "[" + strings.Join(es, ",") + "]"
+}
+
+func vfE7E2E(mode int, pct []int, sb *strings.Builder) {
 	switch mode {
+	case 4:
+		sb.WriteString(`,"e2e_processing_latency":{"count":7,"percentiles":` + vfE7PctJSON(pct) + `}`)
 	case 1:
 		sb.WriteString(`,"e2e_processing_latency":{"count":0,"percentiles":null}`)
 	case 2:
@@ -312,7 +403,18 @@ func (c vfE7Chan) json(sb *strings.Builder, includeClients bool) {
 		}
 	}
 	sb.WriteString("]")
-	vfE7E2E(c.E2E, sb)
+	if len(c.UpNodes) > 0 {
+		var es []string
+		for _, k := range c.UpNodes {
+			if k < 0 {
+				es = append(es, "null")
+			} else {
+				es = append(es, `{"hostname":"zz-upstream","node":"9.9.9.9:1","channel_name":"bogus","depth":5}`)
+			}
+		}
+		sb.WriteString(`,"nodes":[` + strings.Join(es, ",") + `]`)
+	}
+	vfE7E2E(c.E2E, c.Pct, sb)
 	sb.WriteString("}")
 }
 
@@ -336,7 +438,7 @@ func (t vfE7Topic) json(sb *strings.Builder, chanSel string, filters, includeCli
 		c.json(sb, includeClients || !filters)
 	}
 	sb.WriteString("]")
-	vfE7E2E(t.E2E, sb)
+	vfE7E2E(t.E2E, t.Pct, sb)
 	sb.WriteString("}")
 }
 
@@ -1026,10 +1128,41 @@ func vfE7Counter(r *vfRand) int64 {
 	return int64(1) << uint(r.Intn(58))
 }
 
+// vfE7GenPct: a percentiles shape: different lengths on different nodes, repeated and missing "quantile" members and,
+// rarely (VERIF_E7_NULLPCT per mille, default 15), a null element.
+// (On a tree without fixes/F53 every such case kills the process and costs a restart: the rate is scaled so that a run
+// meets about the same number of them in both tiers.)
+var vfE7NullPctPerMille = vfEnvInt("VERIF_E7_NULLPCT", vfE7Max(1, 15*300/vfE7Max(300, vfEnvInt("VERIF_N", 300))))
+
+func vfE7Max(a, b int) int {
+	if a > b {
+		return a
+	}
+	return b
+}
+
+func vfE7GenPct(r *vfRand) []int {
+	var pct []int
+	for i := r.Intn(5); i > 0; i-- {
+		switch {
+		case r.Intn(1000) < vfE7NullPctPerMille:
+			pct = append(pct, -1)
+		case r.Intn(6) == 0:
+			pct = append(pct, 0)
+		default:
+			pct = append(pct, []int{99, 95, 50, 99, 1}[r.Intn(5)])
+		}
+	}
+	return pct
+}
+
 func vfE7GenChan(r *vfRand, name string) vfE7Chan {
 	c := vfE7Chan{Name: name, Depth: vfE7Counter(r), InFlight: vfE7Counter(r), Deferred: vfE7Counter(r), Requeue: vfE7Counter(r),
 		Timeout: vfE7Counter(r), Msg: vfE7Counter(r), Zone: int64(r.Intn(1000)), Region: int64(r.Intn(1000)), Global: int64(r.Intn(3)) * 1000,
 		ClientCount: int64(r.Intn(4)), Paused: r.Intn(4) == 0, E2E: []int{1, 1, 1, 3}[r.Intn(4)]}
+	if r.Intn(4) == 0 {
+		c.E2E, c.Pct = 4, vfE7GenPct(r)
+	}
 	if c.Depth > 0 {
 		c.Backend = int64(r.Next() % uint64(c.Depth+1))
 	}
@@ -1043,6 +1176,9 @@ func vfE7GenChan(r *vfRand, name string) vfE7Chan {
 func vfE7GenTopic(r *vfRand, name string) vfE7Topic {
 	t := vfE7Topic{Name: name, Depth: vfE7Counter(r), Msg: vfE7Counter(r), Zone: int64(r.Intn(1000)), Region: int64(r.Intn(50)),
 		Global: int64(r.Intn(2)) * 77, Paused: r.Intn(5) == 0, E2E: []int{1, 1, 3}[r.Intn(3)]}
+	if r.Intn(5) == 0 {
+		t.E2E, t.Pct = 4, vfE7GenPct(r)
+	}
 	if t.Depth > 0 {
 		t.Backend = int64(r.Next() % uint64(t.Depth+1))
 	}
@@ -1326,7 +1462,7 @@ func TestVerifE7Malformed(t *testing.T) {
 	}
 	for round := 0; round < rounds; round++ {
 		for mode := 0; mode < 2; mode++ {
-			for kind := 0; kind < 12; kind++ {
+			for kind := 0; kind < 21; kind++ {
 				w := vfE7GenWorld(rng, mode == 0, 0)
 				// t1/c1 exists on the first node
 				tp := vfE7GenTopic(rng, "t1")
@@ -1347,6 +1483,9 @@ func TestVerifE7Malformed(t *testing.T) {
 					w.Lookupds[0].Lookup = append([]vfE7Producer{p}, w.Lookupds[0].Lookup...)
 				} else if w.NsqdAddrs[0] != "N0" {
 					w.NsqdAddrs = append([]string{"N0"}, w.NsqdAddrs...)
+				}
+				if round >= 2 && (kind == 12 || kind == 13 || kind == 14 || kind == 17) {
+					continue // null percentiles: fixed worlds, two rounds say it all (each is a process death without fixes/F53)
 				}
 				reqs := []vfE7VReq{{kind: "topic", a: "t1"}, {kind: "channel", a: "t1", b: "c1"}, {kind: "nodes"}, {kind: "node", a: "N0"},
 					{kind: "counter"}, {kind: "topics"}}
@@ -1385,6 +1524,44 @@ func TestVerifE7Malformed(t *testing.T) {
 					w.Nsqds[0].Topics = append(w.Nsqds[0].Topics, vfE7GenTopic(rng, "t1"))
 				case 11: // empty names
 					t0.Channels = append(t0.Channels, vfE7GenChan(rng, ""))
+				case 12: // null element in a channel's latency percentiles
+					t0.Channels[0].E2E, t0.Channels[0].Pct = 4, []int{-1}
+				case 13: // null element in a topic's latency percentiles, after a well-formed one
+					t0.E2E, t0.Pct = 4, []int{99, -1, 95}
+				case 14: // null percentile in a topic that the request does not even ask for
+					tx := vfE7GenTopic(rng, "zz_other")
+					tx.Channels = []vfE7Chan{vfE7GenChan(rng, "c9")}
+					tx.Channels[0].E2E, tx.Channels[0].Pct = 4, []int{50, -1}
+					w.Nsqds[0].Topics = append(w.Nsqds[0].Topics, tx)
+					w.Nsqds[0].Filters = false
+				case 15: // percentiles of different lengths / keys on two nodes, members missing
+					t0.E2E, t0.Pct = 4, []int{99, 95, 50}
+					t0.Channels[0].E2E, t0.Channels[0].Pct = 4, []int{99, 0, 0}
+					t1 := vfE7GenTopic(rng, "t1")
+					t1.E2E, t1.Pct = 4, []int{50}
+					t1.Channels = []vfE7Chan{vfE7GenChan(rng, "c1")}
+					t1.Channels[0].E2E, t1.Channels[0].Pct = 4, []int{1, 99, 95, 50, 0}
+					if len(w.Nsqds) > 1 {
+						w.Nsqds[1].Topics = append([]vfE7Topic{t1}, w.Nsqds[1].Topics...)
+					}
+				case 16: // empty percentiles array
+					t0.E2E, t0.Pct = 4, nil
+					t0.Channels[0].E2E, t0.Channels[0].Pct = 4, []int{}
+				case 18, 19, 20: // the channel object carries a "nodes" member (18: [null], 19: [null, {…}], 20: [{…}]) and a second node reports the channel
+					t0.Channels[0].UpNodes = [][]int{{-1}, {-1, 1}, {1}}[kind-18]
+					t1 := vfE7GenTopic(rng, "t1")
+					t1.Channels = []vfE7Chan{vfE7GenChan(rng, "c1")}
+					if len(w.Nsqds) > 1 {
+						w.Nsqds[1].Topics = append([]vfE7Topic{t1}, w.Nsqds[1].Topics...)
+						if mode == 0 {
+							p := vfE7Producer{Hostname: w.Nsqds[1].Hostname, Sym: w.Nsqds[1].Sym, TCPPort: w.Nsqds[1].TCPPort, Version: "1.3.0",
+								Remote: "10.0.0.2:1", Topics: []string{"t1"}, Tombstones: []bool{false}}
+							w.Lookupds[0].Lookup = append(w.Lookupds[0].Lookup, p)
+						}
+					}
+				case 17: // only null elements, channel and topic
+					t0.E2E, t0.Pct = 4, []int{-1, -1}
+					t0.Channels[0].E2E, t0.Channels[0].Pct = 4, []int{-1, -1, -1}
 				}
 				for _, r := range reqs {
 					e.run(w, r)
@@ -1454,9 +1631,9 @@ func (p *vfE7Tok) channel() vfE7Chan {
 	}
 	c := vfE7Chan{Name: p.s(), Depth: p.n(), Backend: p.n(), InFlight: p.n(), Deferred: p.n(), Requeue: p.n(), Timeout: p.n(), Msg: p.n(),
 		Zone: p.n(), Region: p.n(), Global: p.n(), ClientCount: p.n(), Paused: p.b()}
-	if p.b() {
-		c.E2E = 1
-	}
+	etok, up := vfE7ParseJunkTok(p.next())
+	c.UpNodes = up
+	c.E2E, c.Pct = vfE7ParseE2ETok(etok)
 	for k := p.n(); k > 0; k-- {
 		if p.next() == "null" {
 			c.Clients = append(c.Clients, vfE7Client{Null: true})
@@ -1472,9 +1649,7 @@ func (p *vfE7Tok) topic() vfE7Topic {
 		return vfE7Topic{Null: true}
 	}
 	t := vfE7Topic{Name: p.s(), Depth: p.n(), Backend: p.n(), Msg: p.n(), Zone: p.n(), Region: p.n(), Global: p.n(), Paused: p.b()}
-	if p.b() {
-		t.E2E = 1
-	}
+	t.E2E, t.Pct = vfE7ParseE2ETok(p.next())
 	for k := p.n(); k > 0; k-- {
 		t.Channels = append(t.Channels, p.channel())
 	}
